@@ -12,7 +12,7 @@ ASSUMPTIONS = [
     "the window / identical-output checks are performed by gen/c10.py on the implementation's output (plain substring tests); a 4-byte window counts only if the model's rendering, which by theorem C10_noninterference contains nothing of any secret, does not contain it too (public strings may legitimately share windows with a secret)",
 ]
 KINDS = ["client", "code_req", "refresh_req", "password_req", "cc_req", "devauth_req", "introspect_req", "revoke_req", "auth_req",
-         "token_resp", "intro_resp", "dev_resp", "revocable", "nest"]
+         "token_resp", "intro_resp", "dev_resp", "dev_resp_nouri", "revocable", "nest"]
 PUBS = [["my id", "name", "value", "scope", "user"], ["", "", "", "", ""], ["a\"b", "c\\d", "{:?}", "'q'", "x y z"],
         ["Client { client_secret: ", "([redacted])", "Some(", ", ", "}"], ["~!@#$%^&*()_+", "[]{}<>", "0", "None", "PhantomData"]]
 
